@@ -28,7 +28,16 @@ func runC19(c *Check) {
 	c.Doc("C19-R2", "GA: no division/modulo by a possibly-zero length, no slice beyond a checked length, in the key-derivation helpers.")
 	c.Doc("C19-R3", "VP: one address derivation.")
 	c.Doc("C19-R4", "GA: no signer on a failing path; key fields written last.")
-	lk := p.MustFunc("(*" + filePkg + ".FileSystemSigner).loadKeys")
+	var lk *ssa.Function
+	for _, cal := range staticCalleesOf(p, p.MustFunc(filePkg+".LoadFileSystemSigner")) {
+		if cal.Signature.Recv() != nil && corrResult(cal) >= 0 {
+			lk = cal
+		}
+	}
+	if lk == nil {
+		c.Unk("C19-R1", "key-loader", "", "", "anchor lost: the method LoadFileSystemSigner calls to load the keys")
+		return
+	}
 	{
 		g := BuildECFG(p, lk, ExpandOpts{MaxDepth: 0})
 		c.NoteGraph(g)
@@ -74,7 +83,7 @@ func runC19(c *Check) {
 	{
 		g := BuildECFG(p, ld, ExpandOpts{MaxDepth: 0})
 		c.NoteGraph(g)
-		ok := g.Select(ErrNilEdge(func(t *Term) bool { return t.IsCall("FileSystemSigner).loadKeys") }))
+		ok := g.Select(ErrNilEdge(func(t *Term) bool { cv, ok := t.V.(*ssa.Call); return ok && cv.Common().StaticCallee() == lk }))
 		var withSigner []*Node
 		for _, x := range g.Exits {
 			ret := x.In.(*ssa.Return)
@@ -93,11 +102,16 @@ func runC19(c *Check) {
 	}
 	// ---- R2: key-derivation helpers and everything loadKeys/saveKeys call in the package
 	helpers := map[*ssa.Function]bool{}
-	for _, root := range []string{"loadKeys", "saveKeys"} {
-		fn := p.Func("(*" + filePkg + ".FileSystemSigner)." + root)
-		if fn == nil {
-			continue
+	var keyFns []*ssa.Function
+	keyFns = append(keyFns, lk)
+	if cf := p.Func(filePkg + ".CreateFileSystemSigner"); cf != nil {
+		for _, cal := range staticCalleesOf(p, cf) {
+			if cal.Signature.Recv() != nil {
+				keyFns = append(keyFns, cal)
+			}
 		}
+	}
+	for _, fn := range keyFns {
 		for _, b := range fn.Blocks {
 			for _, in := range b.Instrs {
 				if call, ok := in.(*ssa.Call); ok {
@@ -188,14 +202,23 @@ func runC19(c *Check) {
 		c.OK("C19-R2", "helpers ⟂ no-unchecked-arithmetic", "", "", "no division/modulo by a variable and no variable slice bound in the helpers", false)
 	}
 	// ---- R3
-	derivs := []string{typesF("KeyAddress"), filePkg + ".getAddress", rootPath + "/pkg/signer/noop.getAddress"}
-	shapes := map[string]string{}
-	for _, d := range derivs {
-		fn := p.Func(d)
-		if fn == nil {
-			c.Unk("C19-R3", "derivation ⟂ "+shortName(d), "", "", "anchor lost: address derivation function")
-			continue
+	var derivFns []*ssa.Function
+	for _, pkgPath := range []string{rootPath + "/types", filePkg, rootPath + "/pkg/signer/noop"} {
+		found := false
+		for _, f := range funcsCalling(p, pkgPath, func(n string) bool { return n == "crypto/sha256.Sum256" }) {
+			// a function from a public key to bytes
+			if len(f.Params) == 1 && strings.HasSuffix(f.Params[0].Type().String(), "crypto.PubKey") {
+				derivFns = append(derivFns, f)
+				found = true
+			}
 		}
+		if !found {
+			c.Unk("C19-R3", "derivation ⟂ "+shortName(pkgPath), "", "", "anchor lost: no address derivation (PubKey -> sha256) in this package")
+		}
+	}
+	shapes := map[string]string{}
+	for _, fn := range derivFns {
+		d := shortName(pkgOf(fn)) + " address derivation"
 		// shape: sha256.Sum256 applied to Raw(param)#0, result sliced whole
 		var shape []string
 		okRaw, okSum, okSlice := false, false, false
@@ -223,13 +246,20 @@ func runC19(c *Check) {
 		key := fmt.Sprintf("raw=%v sum256=%v whole=%v other=%v", okRaw, okSum, okSlice, shape)
 		shapes[d] = key
 		if okRaw && okSum && okSlice && len(shape) == 0 {
-			c.OK("C19-R3", "derivation ⟂ "+shortName(d), fnName(fn), p.Pos(fn.Pos()), "address = sha256.Sum256(pub.Raw())[:]", true)
+			c.OK("C19-R3", "derivation ⟂ "+d, fnName(fn), p.Pos(fn.Pos()), "address = sha256.Sum256(pub.Raw())[:]", true)
 		} else {
-			c.Bad("C19-R3", "derivation ⟂ "+shortName(d), fnName(fn), p.Pos(fn.Pos()), "address derivation is not sha256.Sum256(pub.Raw())[:] ("+key+"): the address a signer reports differs from the one full nodes derive from its public key", nil)
+			c.Bad("C19-R3", "derivation ⟂ "+d, fnName(fn), p.Pos(fn.Pos()), "address derivation is not sha256.Sum256(pub.Raw())[:] ("+key+"): the address a signer reports differs from the one full nodes derive from its public key", nil)
 		}
 	}
 	c.MinInstances("C19-R1", 1)
 	c.MinInstances("C19-R2", 2)
 	c.MinInstances("C19-R3", 3)
 	c.MinInstances("C19-R4", 2)
+}
+
+func pkgOf(fn *ssa.Function) string {
+	if pk := fnPkg(fn); pk != nil {
+		return pk.Pkg.Path()
+	}
+	return "?"
 }
